@@ -438,6 +438,19 @@ func RunHistory(h History, bin string, orc Oracles) (*Observation, error) {
 			obs.Log = append(obs.Log, fmt.Sprintf("#%d relocate checkout and its cache directory to %s", i, dest))
 			obs.Classes["relocate"] = true
 			perturbedSinceBuild = true
+		case st.Kind == "grog-clean":
+			// the user-facing way to empty the cache; everything selected afterwards has to run again
+			res := sb.Grog("", buildCap, "clean")
+			if res.Exit != 0 {
+				return obs, withHistory(pbt.Fail(sig("C07", "clean-command-failed"), "grog clean exited %d\n%s", res.Exit, clip(res.Out)), obs)
+			}
+			if sbMin != nil {
+				sbMin.Grog("", buildCap, "clean")
+			}
+			model.Cleaned()
+			modelMin.Cleaned()
+			obs.Log = append(obs.Log, fmt.Sprintf("#%d grog clean", i))
+			obs.Classes["grog-clean"] = true
 		case st.Kind == "fault-wipe-cas":
 			sb.WipeCas(w)
 			if sbMin != nil {
